@@ -187,6 +187,10 @@ class Subscriptions:
         return cb
 
 
+class ImplHang(BaseException):
+    """the implementation exceeded the CPU-time limit on a generated stream"""
+
+
 class _Discard(logging.Handler):
     """formats every record (so that lazily formatted arguments are evaluated, as a real handler would) and throws it away"""
 
@@ -228,6 +232,16 @@ def play_stream(dialect, definitions, views, stream, strict, subs_spec=None, eve
                 return orig_deser(packet)
             player._deserialize_packet = deser
         out = {}
+        # CPU-time limit around the implementation: a generated stream of a few KB that keeps the player busy for 30 s of CPU time is a
+        # hang (reported with the stream as replay), not something to wait for
+        import signal
+
+        def on_prof(signum, frame):
+            raise ImplHang()
+        use_timer = hasattr(signal, 'setitimer') and __import__('threading').current_thread() is __import__('threading').main_thread()
+        if use_timer:
+            old_prof = signal.signal(signal.SIGPROF, on_prof)
+            signal.setitimer(signal.ITIMER_PROF, 30 + len(stream) / 20000.0)
         try:
             if every:
                 # re-implement the loop boundaries only to take dumps: play() is called per packet
@@ -261,8 +275,14 @@ def play_stream(dialect, definitions, views, stream, strict, subs_spec=None, eve
         except struct.error:
             # either a short header (both modes) or a strict-mode packet failure of that class
             out = {'end': 'struct.error'}
+        except ImplHang:
+            out = {'end': 'hang', 'hang': True}
         except Exception as e:
             out = {'end': 'raised', 'err': codec.err_class(e)}
+        finally:
+            if use_timer:
+                signal.setitimer(signal.ITIMER_PROF, 0)
+                signal.signal(signal.SIGPROF, old_prof)
         out['world'] = dump_world(ctrl)
         out['log'] = subs.log
         if every:
